@@ -164,46 +164,53 @@ func checkC04(w *World, r *Report) {
 	r.guard("R04.10", func() {
 		f := w.Method("xpath", "CommonLex", "LexNum")
 		fd, _ := w.FuncDecl(f)
-		// the matcher: the function value LexNum hands to ConstructToken; its accepted set is read
-		// off its result condition (switch, if-chain or a single expression alike)
-		var set ISet
-		found := false
-		if lf := w.SSAFunc(f); lf != nil {
-			for _, b := range lf.Blocks {
-				for _, in := range b.Instrs {
-					c, ok := in.(*ssa.Call)
-					if !ok || c.Call.StaticCallee() == nil || nm(c.Call.StaticCallee()) != "ConstructToken" || len(c.Call.Args) < 3 {
-						continue
-					}
-					v := c.Call.Args[2]
-					if ct, ok := v.(*ssa.ChangeType); ok {
-						v = ct.X
-					}
-					var mf *ssa.Function
-					switch x := v.(type) {
-					case *ssa.MakeClosure:
-						mf = x.Fn.(*ssa.Function)
-					case *ssa.Function:
-						mf = x
-					}
-					if mf == nil || len(mf.Params) != 1 || len(ssaLoops(mf)) > 0 {
-						continue
-					}
-					sym := NewSym(w)
-					if vals, ok := pcValuesWhen(sym.ResultCond(mf, nil), "p0"); ok {
-						set, found = vals, true
-					}
-				}
-			}
-		}
-		if !found {
-			panic(undecided{"LexNum matcher"})
-		}
+		set := lexNumAlphabet(w)
 		want := ISet{{'0', '9'}, {'.', '.'}}.norm()
 		extra := set.minus(want)
 		r.Check(len(extra) == 0, "R04.10", "CommonLex.LexNum matcher", fd.Pos(), "alphabet "+set.String(),
 			"number tokens may contain "+extra.String()+": exponent forms such as 1e3 are accepted although XPath 1.0 Number has no exponent")
 	})
+}
+
+// lexNumAlphabet: the characters LexNum's matcher — the function value it
+// hands to ConstructToken — accepts, read off its result condition (switch,
+// if-chain or a single expression alike).
+func lexNumAlphabet(w *World) ISet {
+	var set ISet
+	found := false
+	if lf := w.SSAFunc(w.Method("xpath", "CommonLex", "LexNum")); lf != nil {
+		for _, b := range lf.Blocks {
+			for _, in := range b.Instrs {
+				c, ok := in.(*ssa.Call)
+				if !ok || c.Call.StaticCallee() == nil || nm(c.Call.StaticCallee()) != "ConstructToken" || len(c.Call.Args) < 3 {
+					continue
+				}
+				v := c.Call.Args[2]
+				if ct, ok := v.(*ssa.ChangeType); ok {
+					v = ct.X
+				}
+				var mf *ssa.Function
+				switch x := v.(type) {
+				case *ssa.MakeClosure:
+					mf = x.Fn.(*ssa.Function)
+				case *ssa.Function:
+					mf = x
+				}
+				if mf == nil || len(mf.Params) != 1 || len(ssaLoops(mf)) > 0 {
+					continue
+				}
+				sym := NewSym(w)
+				sym.Expand = true
+				if vals, ok := pcValuesWhen(sym.ResultCond(mf, nil), "p0"); ok {
+					set, found = vals, true
+				}
+			}
+		}
+	}
+	if !found {
+		panic(undecided{"LexNum matcher"})
+	}
+	return set
 }
 
 func c04Unsupported(w *World, r *Report) {
